@@ -38,6 +38,10 @@ type c6Chain struct {
 	fseq     int
 	optional bool
 	failOn   int // sink index that returns an error for this event, -1 none
+	shortOn  int // sink index that accepts fewer bytes (nil error) for this event, -1 none
+	derive   int // 0 none; the task derives a child logger first: 1 With().Str, 2 Hook, 3 Level(Trace), 4 Output(same destination)
+	sampler  int // index of the shared BasicSampler its logger goes through, -1 none
+	gatePass bool
 }
 
 type c6Run struct {
@@ -55,6 +59,10 @@ type c6Run struct {
 	lastSeq  map[[2]int]int
 	sinkBeh  int
 	extraDest io.Writer
+	curDest   io.Writer
+	samplers  []*c6CountSampler
+	samplerN  []uint32
+	samplerOf []int // per logger index: sampler index or -1
 }
 
 type c6Sink struct {
@@ -144,6 +152,11 @@ func (s *c6Sink) write(l zerolog.Level, hasLevel bool, p []byte) (int, error) {
 		zsim.Fault("sink_error")
 		return 0, errors.New("injected write error")
 	}
+	if c.shortOn == s.idx && len(p) > 1 {
+		// a short count with a nil error: still exactly one Write per event
+		zsim.Fault("sink_short_write")
+		return len(p) / 2, nil
+	}
 	return len(p), nil
 }
 
@@ -170,6 +183,22 @@ func (c6DiscardHook) Run(e *zerolog.Event, l zerolog.Level, msg string) {
 		zsim.Probe("hook_discards_event")
 		e.Discard()
 	}
+}
+
+// c6CountSampler wraps a shared BasicSampler and counts consultations and
+// admissions (the wrapper itself is only ever touched by the baton holder).
+type c6CountSampler struct {
+	inner           *zerolog.BasicSampler
+	calls, admitted int
+}
+
+func (c *c6CountSampler) Sample(l zerolog.Level) bool {
+	c.calls++
+	ok := c.inner.Sample(l)
+	if ok {
+		c.admitted++
+	}
+	return ok
 }
 
 type c6Hook struct{ name string }
@@ -231,6 +260,19 @@ func (r *c6Run) start(c *c6Chain) *zerolog.Event {
 		return zlog.WithLevel(c.level)
 	}
 	lg := r.loggers[c.logger]
+	switch c.derive {
+	case 1:
+		lg = lg.With().Str("derived", c.id).Logger()
+	case 2:
+		lg = lg.Hook(c6Hook{"d" + c.id})
+	case 3:
+		lg = lg.Level(zerolog.TraceLevel)
+	case 4:
+		lg = lg.Output(r.curDest)
+	}
+	if c.derive != 0 {
+		zsim.Probe("derived_in_task")
+	}
 	if c.level == zerolog.NoLevel {
 		return lg.Log()
 	}
@@ -288,6 +330,7 @@ func (c06World) Run(prop string, ch *zsim.Choices, trace bool) *RunResult {
 			parent, kind int
 			ops          []fop
 			name         string
+			n            uint32
 		}
 		var specs []lspec
 		nLog := 1
@@ -296,7 +339,10 @@ func (c06World) Run(prop string, ch *zsim.Choices, trace bool) *RunResult {
 		}
 		nl := ch.Intn(4)
 		for i := 0; i < nl; i++ {
-			sp := lspec{parent: ch.Intn(nLog), kind: ch.Intn(7), name: fmt.Sprintf("h%d", i)}
+			sp := lspec{parent: ch.Intn(nLog), kind: ch.Intn(9), name: fmt.Sprintf("h%d", i)}
+			if sp.kind == 8 {
+				sp.n = uint32(2 + ch.Intn(3))
+			}
 			if sp.kind <= 1 {
 				sp.ops = genOps(ch, 1+ch.Intn(3), 1, fmt.Sprintf("c%d_", i))
 			}
@@ -306,14 +352,30 @@ func (c06World) Run(prop string, ch *zsim.Choices, trace bool) *RunResult {
 		build := func() {
 			r.extraDest = nil
 			dest := r.buildDest()
+			r.curDest = dest
 			root := zerolog.New(dest)
 			r.loggers = []zerolog.Logger{root}
+			r.samplerOf = []int{-1}
+			r.samplers, r.samplerN = nil, nil
 			if r.extraDest != nil {
 				r.loggers = append(r.loggers, root.Output(r.extraDest))
+				r.samplerOf = append(r.samplerOf, -1)
 			}
 			for _, sp := range specs {
 				parent := r.loggers[sp.parent]
+				r.samplerOf = append(r.samplerOf, r.samplerOf[sp.parent])
 				switch sp.kind {
+				case 7:
+					// three separate Hook calls leave the hooks slice with spare capacity
+					r.loggers = append(r.loggers, parent.Hook(c6Hook{sp.name + "a"}).Hook(c6Hook{sp.name + "b"}).Hook(c6Hook{sp.name + "c"}))
+				case 8:
+					// a BasicSampler shared by every task that logs through this logger or its
+					// descendants: which events it admits depends on the schedule, how many does not
+					bs := &c6CountSampler{inner: &zerolog.BasicSampler{N: sp.n}}
+					r.samplers = append(r.samplers, bs)
+					r.samplerN = append(r.samplerN, sp.n)
+					r.samplerOf[len(r.samplerOf)-1] = len(r.samplers) - 1
+					r.loggers = append(r.loggers, parent.Sample(bs))
 				case 4:
 					r.loggers = append(r.loggers, parent.Hook(c6DiscardHook{}))
 				case 0, 1:
@@ -344,8 +406,17 @@ func (c06World) Run(prop string, ch *zsim.Choices, trace bool) *RunResult {
 			n := 1 + ch.Intn(6)
 			var cs []*c6Chain
 			for k := 0; k < n; k++ {
-				c := &c6Chain{task: t, k: k, id: fmt.Sprintf("t%d.%d", t, k), failOn: -1}
+				c := &c6Chain{task: t, k: k, id: fmt.Sprintf("t%d.%d", t, k), failOn: -1, shortOn: -1, sampler: -1}
 				c.logger = ch.Intn(len(r.loggers) + 1)
+				if c.logger < len(r.loggers) {
+					c.sampler = r.samplerOf[c.logger]
+					if ch.Chance(1, 4) {
+						c.derive = 1 + ch.Intn(4)
+					}
+				}
+				if !withErrors && ch.Chance(1, 8) {
+					c.shortOn = ch.Intn(nsinks)
+				}
 				c.level = c6Levels[ch.Intn(len(c6Levels))]
 				c.ops = genOps(ch, ch.Intn(7), 0, "f")
 				c.fin = ch.Intn(4)
@@ -355,19 +426,26 @@ func (c06World) Run(prop string, ch *zsim.Choices, trace bool) *RunResult {
 				if r.flips && c.level != zerolog.NoLevel && c.level < zerolog.ErrorLevel {
 					c.optional = true
 				}
+				if c.sampler >= 0 {
+					c.optional = true // which events a shared sampler admits depends on the schedule
+				}
 				cs = append(cs, c)
 			}
 			r.chains = append(r.chains, cs)
 		}
-		summary = fmt.Sprintf("dest=%d tasks=%d loggers=%d sink-behaviour=%d level-flips=%v errors=%v", r.dest, r.nTasks, len(r.loggers)+1, r.sinkBeh, r.flips, withErrors)
+		summary = fmt.Sprintf("dest=%d tasks=%d loggers=%d samplers=%d sink-behaviour=%d level-flips=%v errors=%v", r.dest, r.nTasks, len(r.loggers)+1, len(r.samplers), r.sinkBeh, r.flips, withErrors)
 		zsim.Log("config: %s", summary)
-		// reference: every chain alone (no other task exists yet)
+		// reference: every chain alone (no other task exists yet); sampling is switched
+		// off meanwhile so that the bytes of sampled events are known too
+		zerolog.DisableSampling(true)
 		for _, cs := range r.chains {
 			for _, c := range cs {
 				r.solo = c
 				r.runChain(c, 0)
+				c.gatePass = c.exp[0] != nil || c.exp[1] != nil
 			}
 		}
+		zerolog.DisableSampling(false)
 		r.solo = nil
 		build()
 		s.ArmDraw([]string{"event.go", "array.go", "log.go", "writer.go", "console.go", "globals.go", "context.go", "fields.go", "encoder", "internal/json/", "log/"})
@@ -442,6 +520,13 @@ func (c06World) Run(prop string, ch *zsim.Choices, trace bool) *RunResult {
 						return viol("C06.count", "event %s: sink %d received %d write(s), the chain run alone produces %d", c.id, i, c.got[i], want)
 					}
 				}
+			}
+		}
+		// a BasicSampler{N} shared by the tasks admits exactly ceil(k/N) of its k consultations
+		for j, n := range r.samplerN {
+			c := r.samplers[j]
+			if want := (c.calls + int(n) - 1) / int(n); c.admitted != want {
+				return viol("C06.count", "the BasicSampler{%d} shared by the logging tasks was consulted %d times and admitted %d events, expected %d", n, c.calls, c.admitted, want)
 			}
 		}
 		return nil
